@@ -128,7 +128,9 @@ class FortranRegularExpressions:
     FREE_FORMAT_TEST: Pattern = compile(r"[ ]{1,4}[a-z]", I)
     # Preprocessor matching rules
     DEFINED: Pattern = compile(r"defined[ ]*\(?[ ]*([a-z_]\w*)[ ]*\)?", I)
-    PP_REGEX: Pattern = compile(r"[ ]*#[ ]*(if |ifdef|ifndef|else|elif|endif)", I)
+    PP_REGEX: Pattern = compile(
+        r"[ ]*#[ ]*(if(?=[ (!])|ifdef|ifndef|else|elif|endif)", I
+    )
     PP_DEF: Pattern = compile(
         r"[ ]*#[ ]*(define|undef|undefined)[ ]*(\w+)(\([ ]*([ \w,]*?)[ ]*\))?",
         I,
